@@ -517,6 +517,90 @@ func releaseAtPoint(t *testing.T, idx int64, r *rand.Rand) {
 	rt.Distinct(fmt.Sprintf("rap|%s|%s|%d|%s|%d", c.Pool, c.Ordering, c.Limit, point, yields))
 }
 
+// twoReleasesTwoParked: a generic pool over the simple strategy, every unit held, two callers parked.  One holder
+// completes; while the hand-off for the first parked caller is inside the strategy (verif point between its check and
+// its add) a second holder completes in another goroutine.  Two units were released: both parked callers are served.
+func twoReleasesTwoParked(t *testing.T, idx int64, r *rand.Rand) {
+	c := genCfg(r)
+	c.Pool, c.Simple, c.StratArg = "generic", true, 0
+	if c.Ordering == "random" {
+		c.Ordering = []string{"fifo", "lifo"}[r.IntN(2)]
+	}
+	if c.Limit < 2 {
+		c.Limit = 2
+	}
+	c.Callers, c.Backlog, c.Timeout, c.Yields, c.SmallWin = c.Limit+2, 4, time.Hour, 0, false
+	yields := []int{200, 2000}[r.IntN(2)]
+	served := 0
+	rt.Scenario(fmt.Sprintf("C19/%s-%s/two-releases-two-parked", c.Pool, c.Ordering), idx, c)
+	defer rt.ScenarioDone()
+	bubble(t, func(t *testing.T) {
+		p := build(c)
+		var held []core.Listener
+		for i := 0; i < c.Limit; i++ {
+			l, ok := p.Acquire(context.Background())
+			if !ok {
+				panic("c19: unit refused")
+			}
+			held = append(held, l)
+		}
+		type wt struct {
+			done atomic.Bool
+			ok   bool
+			l    core.Listener
+		}
+		ws := []*wt{{}, {}}
+		for _, w := range ws {
+			go func() { w.l, w.ok = p.Acquire(context.Background()); w.done.Store(true) }()
+			synctest.Wait()
+			time.Sleep(time.Millisecond)
+		}
+		var armed, fired atomic.Bool
+		strategy.SetVerifHook(func(name string) {
+			if name == "simple.between_check_and_add" && armed.Load() && fired.CompareAndSwap(false, true) {
+				var done atomic.Bool
+				go func() { held[1].OnSuccess(); done.Store(true) }()
+				for i := 0; i < yields && !done.Load(); i++ {
+					runtime.Gosched()
+				}
+			}
+		})
+		defer strategy.SetVerifHook(nil)
+		armed.Store(true)
+		held[0].OnSuccess()
+		synctest.Wait()
+		armed.Store(false)
+		if !fired.Load() {
+			held[1].OnSuccess()
+			synctest.Wait()
+		}
+		for _, w := range ws {
+			if w.done.Load() && w.ok && w.l != nil {
+				served++
+			}
+		}
+		for _, h := range held[2:] {
+			h.OnSuccess()
+		}
+		for round := 0; round < 4; round++ {
+			synctest.Wait()
+			for _, w := range ws {
+				if w.done.Load() && w.ok && w.l != nil {
+					w.l.OnSuccess()
+					w.l = nil
+				}
+			}
+		}
+		synctest.Wait()
+	})
+	rt.Count("two_releases_two_parked_cases", 1)
+	if served != 2 {
+		rt.Violation(fmt.Sprintf("C19/%s-%s/two-releases-served-%d-of-two-parked-callers", c.Pool, c.Ordering, served), idx, rt.J{"config": c, "pause_yields": yields})
+		return
+	}
+	rt.Distinct(fmt.Sprintf("2r2p|%s|%d|%d", c.Ordering, c.Limit, yields))
+}
+
 func TestCheck(t *testing.T) {
 	rt.Cases(1650, 1320000, func(idx int64) {
 		r := rt.CaseRand(19, idx)
@@ -525,6 +609,8 @@ func TestCheck(t *testing.T) {
 			stressCase(idx, r)
 		} else if idx%11 == 7 {
 			releaseAtPoint(t, idx, r)
+		} else if idx%22 == 3 {
+			twoReleasesTwoParked(t, idx, r)
 		} else {
 			virtualCase(t, idx, r)
 		}
